@@ -91,7 +91,8 @@ AdmitWaiter(x, a) ==
 RECURSIVE AdmitAll(_, _)
 AdmitAll(x, gs) == IF gs = <<>> THEN x ELSE AdmitAll(AdmitWaiter(x, Head(gs)), Tail(gs))
 RECURSIVE CanAdmitAll(_, _)
-CanAdmitAll(x, gs) == gs = <<>> \/ (IsWaiting(x, Head(gs)) /\ CanAdmitAll(AdmitWaiter(x, Head(gs)), Tail(gs)))
+CanAdmitAll(x, gs) == IF gs = <<>> THEN TRUE   \* (IF, not \/: TLC explores both sides of a disjunction in an action)
+                      ELSE IsWaiting(x, Head(gs)) /\ CanAdmitAll(AdmitWaiter(x, Head(gs)), Tail(gs))
 
 (* Acquire, critical section 1.  kind = "fast" | "doomed" | "wait" *)
 AcqOK(x, a, n, kind, gs) ==
@@ -114,7 +115,7 @@ CancelWakeOK(x, a) == St(x, a) \in {"wait", "ready"}
 CancelWakeF(x, a)  == SetSt(x, a, IF St(x, a) = "wait" THEN "cwait" ELSE "cready")
 
 (* Acquire, critical section 2: sawReady = the code found `ready` closed; gs = waiters it notified *)
-CancelOK(x, a, gs) == (IsWaiting(x, a) \/ IsReady(x, a)) /\ (IsReady(x, a) => gs = <<>>)
+CancelOK(x, a, gs) == St(x, a) \in {"wait", "cwait", "ready", "cready"} /\ (IsReady(x, a) => gs = <<>>)
                       /\ (IsWaiting(x, a) => CanAdmitAll(SetSt([x EXCEPT !.wl = RemoveA(@, a)], a, "cancelled"), gs))
 CancelF(x, a, sawReady, gs) ==
     IF IsReady(x, a)
@@ -124,7 +125,7 @@ CancelF(x, a, sawReady, gs) ==
          ELSE AdmitAll(SetSt([x EXCEPT !.wl = RemoveA(@, a)], a, "cancelled"), gs)
 
 (* Acquire returns *)
-RetOK(x, a) == IsReady(x, a) \/ St(x, a) \in {"cancelled", "doomed"}
+RetOK(x, a) == St(x, a) \in {"ready", "cready", "cancelled", "doomed"}
 RetF(x, a, isnil) ==
     IF isnil THEN SetSt(Flag(x, ~IsReady(x, a), "outcome"), a, "held")
     ELSE SetSt(Flag(x, St(x, a) \notin {"cancelled", "doomed"}, "outcome"), a, "cancelled")
@@ -274,7 +275,7 @@ Init == /\ \E n \in InitSizes : s = S0(n) /\ hist = << [a |-> "Init", size |-> n
         /\ waiters = <<>>
         /\ nset = 0 /\ nforce = 0
 
-Next == /\ MaxOps = 0 \/ Len(hist) <= MaxOps
+Next == /\ IF MaxOps = 0 THEN TRUE ELSE Len(hist) <= MaxOps
         /\ \/ \E a \in Acqs : Acquire(a) \/ Try(a) \/ CancelWake(a) \/ CancelCS(a) \/ Wake(a) \/ Release(a)
            \/ \E n \in Sizes : SetSize(n)
            \/ \E n \in Forces : Force(n)
